@@ -64,6 +64,20 @@ mod verif_replay_d {
                 for (k, u) in before { if d.namespace_lookup.get(&k).map(|v| v.namespace.clone()) != Some(u.clone()) { println!("D|seq|{:?}|binding {k} changed", &seq[..=i]); } }
             }
         } } }
+        // many namespaces with the same three-letter stem, registered one after the other (suffixes beyond one digit) and then targeted
+        for count in [12usize, 25, 120] {
+            let mut d = RustDocument::empty();
+            for i in 0..count {
+                let before: Vec<(String, String)> = d.namespace_lookup.iter().map(|(k, v)| (k.clone(), v.namespace.clone())).collect();
+                let uri = format!("http://example.com/v{i}/types");
+                d.add_namespace_reference(&format!("p{i}"), &uri);
+                if i % 3 == 0 { d.switch_to_target_namespace(&uri); }
+                n += 1;
+                for b in check(&d, None) { println!("D|seq|[{} URIs of the form http://example.com/vN/types, registered p0..p{i}]|{b}", i + 1); }
+                if d.namespace_lookup.get(&format!("p{i}")).map(|v| v.namespace.clone()) != Some(uri.clone()) { println!("D|seq|[colliding p0..p{i}]|prefix p{i} is not bound to {uri}"); }
+                for (k, u) in before { if d.namespace_lookup.get(&k).map(|v| v.namespace.clone()) != Some(u.clone()) { println!("D|seq|[colliding p0..p{i}]|binding {k} changed"); } }
+            }
+        }
         // merges of two 2-step documents (operations on the last 8 URIs of the pool only: the count grows with the 4th power)
         let some: Vec<Op> = all.iter().copied().filter(|o| match o { Op::Add(_, u) | Op::Switch(u) => *u >= URIS.len() - 8 }).collect();
         for &a1 in &some { for &a2 in &some { for &b1 in &some { for &b2 in &some {
